@@ -355,9 +355,9 @@ type delivered struct {
 	err  bool
 }
 
-func (e *env) converge(seed uint64, chanMode bool) {
+func (e *env) converge(seed uint64, chanMode, limited bool) {
 	rnd := h.NewRand(seed)
-	name := fmt.Sprintf("converge seed=%d chan=%v", seed, chanMode)
+	name := fmt.Sprintf("converge seed=%d chan=%v limited=%v", seed, chanMode, limited)
 	const nnodes = 4
 	srv, err := xreal.StartReal(0, nnodes)
 	if err != nil {
@@ -367,6 +367,10 @@ func (e *env) converge(seed uint64, chanMode bool) {
 	defer srv.Close()
 	for k := 0; k < nnodes; k++ {
 		srv.Set(k, int32(k*100000))
+	}
+	maxPerPublish := uint32(0)
+	if limited {
+		maxPerPublish = 2
 	}
 	var emu sync.Mutex
 	var obs []string
@@ -439,7 +443,7 @@ func (e *env) converge(seed uint64, chanMode bool) {
 		lastMsg = time.Now()
 		dmu.Unlock()
 	}
-	params := &opcua.SubscriptionParameters{Interval: 20 * time.Millisecond}
+	params := &opcua.SubscriptionParameters{Interval: 20 * time.Millisecond, MaxNotificationsPerPublish: maxPerPublish}
 	var sub *monitor.Subscription
 	first := []string{srv.NodeID(0).String(), srv.NodeID(1).String(), srv.NodeID(2).String()}
 	if chanMode {
@@ -457,7 +461,21 @@ func (e *env) converge(seed uint64, chanMode bool) {
 		e.r.InfraError = "monitor subscribe: " + err.Error()
 		return
 	}
-	// concurrent writers; node 3 is added, node 1 removed and added again while they write
+	// concurrent writers; node 3 is added, node 1 removed and added again while they write.
+	// A write is what NodeNameSpace.SetAttribute does — store the value, then call
+	// ChangeNotification — with the store serialised per node by the harness so that
+	// the values stored in a node are strictly increasing (the notifications are not
+	// serialised: they race each other and the initial-value goroutines).
+	var wmu [nnodes]sync.Mutex
+	var wctr [nnodes]int32
+	write := func(node int) {
+		wmu[node].Lock()
+		wctr[node]++
+		v := int32(node*100000) + wctr[node]
+		srv.Nodes[node].SetAttribute(ua.AttributeIDValue, &ua.DataValue{EncodingMask: ua.DataValueValue | ua.DataValueSourceTimestamp, Value: ua.MustVariant(v), SourceTimestamp: time.Now()})
+		wmu[node].Unlock()
+		srv.NS.ChangeNotification(srv.NodeID(node))
+	}
 	var wg sync.WaitGroup
 	nwriters, nwrites := 3, e.o.N(60, 150)
 	for w := 0; w < nwriters; w++ {
@@ -466,11 +484,18 @@ func (e *env) converge(seed uint64, chanMode bool) {
 		go func(w int) {
 			defer wg.Done()
 			for k := 1; k <= nwrites; k++ {
-				node := wr.Intn(nnodes)
-				srv.Set(node, int32(node*100000+w*10000+k))
+				write(wr.Intn(nnodes))
 				if wr.Chance(60) {
 					time.Sleep(time.Duration(wr.Intn(12000)) * time.Microsecond)
 				}
+			}
+			// burst: back-to-back writes, all writers on the same two nodes
+			for k := 0; k < 150; k++ {
+				write(k % 2)
+			}
+			// like one WriteRequest for all nodes: every node changes within one publishing interval
+			for node := 0; node < nnodes; node++ {
+				write(node)
 			}
 		}(w)
 	}
@@ -569,6 +594,21 @@ func (e *env) converge(seed uint64, chanMode bool) {
 	nobs := len(obs)
 	emu.Unlock()
 	e.r.Compare(e.d, line, "yes")
+	// … and, the values stored in a node being increasing, the values enqueued for a
+	// handle must never go back: ChangeNotification reads the value under the same lock
+	// under which it sends
+	emu.Lock()
+	var enq []string
+	for _, o := range obs {
+		if strings.HasPrefix(o, "E:") {
+			enq = append(enq, o)
+		}
+	}
+	emu.Unlock()
+	e.r.Compare(e.d, "mono "+strings.Join(enq, " "), "yes")
+	if limited {
+		e.r.Hit("converge:max-notifications-per-publish=2")
+	}
 	e.r.Sample(fmt.Sprintf("%s: %d messages (%d handle-not-found), %d server events, last=%v", name, len(msgs), nerr, nobs, last))
 	_ = sub
 }
@@ -603,7 +643,7 @@ func main() {
 			e.handleSequence(seed)
 		} else if len(f) >= 2 && f[0] == "converge" {
 			fmt.Sscanf(f[1], "seed=%d", &seed)
-			e.converge(seed, strings.Contains(o.Replay, "chan=true"))
+			e.converge(seed, strings.Contains(o.Replay, "chan=true"), strings.Contains(o.Replay, "limited=true"))
 		}
 		r.Write(o.Out)
 		return
@@ -619,10 +659,10 @@ func main() {
 		e.handleSequence(o.Seed*1000 + uint64(i))
 	}
 	for i := 0; i < o.N(3, 30) && r.InfraError == ""; i++ {
-		e.converge(o.Seed*1000+uint64(i), i%3 == 2)
+		e.converge(o.Seed*1000+uint64(i), i%3 == 2, i%3 == 1)
 	}
 	for _, b := range []string{"op:add", "op:add-shared-params", "op:add-with-failed-item", "op:remove", "op:remove-unknown",
-		"deliver:right-node", "deliver:handle-not-found", "converge:callback-subscribe", "converge:chan-subscribe", "converge:last-equals-read"} {
+		"deliver:right-node", "deliver:handle-not-found", "converge:callback-subscribe", "converge:chan-subscribe", "converge:max-notifications-per-publish=2", "converge:last-equals-read"} {
 		if r.Distribution[b] == 0 {
 			r.Unreached = append(r.Unreached, b)
 		}
